@@ -33,6 +33,8 @@ N0LO = int(os.environ.get("C12_N0LO", "0"))
 NN = int(os.environ.get("C12_NN", "3"))
 ND = int(os.environ.get("C12_ND", "3"))
 N0HI = int(os.environ.get("C12_N0HI", str(NN)))
+OP1LO = int(os.environ.get("C12_OP1LO", "0"))
+OP1HI = int(os.environ.get("C12_OP1HI", "99"))
 M0LO = int(os.environ.get("C12_M0LO", "0"))
 M0HI = int(os.environ.get("C12_M0HI", "99"))
 NN1 = NN + 1 if NN == 3 else NN        # + the bytes alias
@@ -46,7 +48,9 @@ DESCS_BY_PRETEXT = [[None, "plain text", "été # : \"q\"", "# rule: other marke
 
 
 def reconfigure():
-    global MODE, OP0LO, OP0HI, N0LO, N0HI, PRETEXT, NN, ND, NN1, NN2, M0LO, M0HI
+    global MODE, OP0LO, OP0HI, N0LO, N0HI, PRETEXT, NN, ND, NN1, NN2, M0LO, M0HI, OP1LO, OP1HI
+    OP1LO = int(os.environ.get("C12_OP1LO", "0"))
+    OP1HI = int(os.environ.get("C12_OP1HI", "99"))
     M0LO = int(os.environ.get("C12_M0LO", "0"))
     M0HI = int(os.environ.get("C12_M0HI", "99"))
     NN = int(os.environ.get("C12_NN", "3"))
@@ -244,6 +248,9 @@ def _history_body(info, ops):
             co = OP0LO + P.decode(op - OP0LO, OP0HI - OP0LO)
             c1 = N0LO + P.decode(n1 - N0LO, min(N0HI, NN1) - N0LO)
             first = False
+        elif i == 1:
+            co = OP1LO + P.decode(op - OP1LO, min(OP1HI, NOPS) - OP1LO)
+            c1 = P.decode(n1, NN1)
         else:
             co = P.decode(op, NOPS)
             c1 = P.decode(n1, NN1)
@@ -280,7 +287,7 @@ def _history_body(info, ops):
 def hist2(op0: int, n0: int, m0: int, k0: int, d0: int, op1: int, n1: int, m1: int, k1: int, d1: int) -> bool:
     """
     pre: OP0LO <= op0 < OP0HI and N0LO <= n0 < N0HI and M0LO <= m0 < min(M0HI, NN2) and 0 <= k0 < ND and 0 <= d0 < 4
-    pre: 0 <= op1 < NOPS and 0 <= n1 < NN1 and 0 <= m1 < NN2 and 0 <= k1 < ND and 0 <= d1 < 4
+    pre: OP1LO <= op1 < min(OP1HI, NOPS) and 0 <= n1 < NN1 and 0 <= m1 < NN2 and 0 <= k1 < ND and 0 <= d1 < 4
     post: _
     """
     return run("hist2", _history_body, dict(ops=[(op0, n0, m0, k0, d0), (op1, n1, m1, k1, d1)]))
@@ -290,7 +297,7 @@ def hist3(op0: int, n0: int, m0: int, k0: int, d0: int, op1: int, n1: int, m1: i
           op2: int, n2: int, m2: int, k2: int, d2: int) -> bool:
     """
     pre: OP0LO <= op0 < OP0HI and N0LO <= n0 < N0HI and M0LO <= m0 < min(M0HI, NN2) and 0 <= k0 < ND and 0 <= d0 < 4
-    pre: 0 <= op1 < NOPS and 0 <= n1 < NN1 and 0 <= m1 < NN2 and 0 <= k1 < ND and 0 <= d1 < 4
+    pre: OP1LO <= op1 < min(OP1HI, NOPS) and 0 <= n1 < NN1 and 0 <= m1 < NN2 and 0 <= k1 < ND and 0 <= d1 < 4
     pre: 0 <= op2 < NOPS and 0 <= n2 < NN1 and 0 <= m2 < NN2 and 0 <= k2 < ND and 0 <= d2 < 4
     post: _
     """
@@ -301,7 +308,7 @@ def hist4(op0: int, n0: int, m0: int, k0: int, d0: int, op1: int, n1: int, m1: i
           op2: int, n2: int, m2: int, k2: int, d2: int, op3: int, n3: int, m3: int, k3: int, d3: int) -> bool:
     """
     pre: OP0LO <= op0 < OP0HI and N0LO <= n0 < N0HI and M0LO <= m0 < min(M0HI, NN2) and 0 <= k0 < ND and 0 <= d0 < 4
-    pre: 0 <= op1 < NOPS and 0 <= n1 < NN1 and 0 <= m1 < NN2 and 0 <= k1 < ND and 0 <= d1 < 4
+    pre: OP1LO <= op1 < min(OP1HI, NOPS) and 0 <= n1 < NN1 and 0 <= m1 < NN2 and 0 <= k1 < ND and 0 <= d1 < 4
     pre: 0 <= op2 < NOPS and 0 <= n2 < NN1 and 0 <= m2 < NN2 and 0 <= k2 < ND and 0 <= d2 < 4
     pre: 0 <= op3 < NOPS and 0 <= n3 < NN1 and 0 <= m3 < NN2 and 0 <= k3 < ND and 0 <= d3 < 4
     post: _
